@@ -1310,6 +1310,44 @@ fn can_differ(t: &Ty) -> bool {
     }
 }
 
+/// two tuples that agree everywhere except in the middle of one LONG string leaf (same length, same first and last 100+
+/// bytes).  Variants: one character differs; two adjacent characters differ so that the sum / the 31-polynomial / the xor of
+/// the bytes is unchanged ("Aa" vs "BB" is the classic `h = 31*h + c` collision); two characters swapped.
+fn long_twins(a: &[V], rng: &mut Rng) -> Option<(Vec<V>, Vec<V>, &'static str)> {
+    let mut leaves = Vec::new();
+    for (i, v) in a.iter().enumerate() {
+        let mut p = vec![i];
+        leaf_paths(v, &mut p, &mut leaves);
+    }
+    let strs: Vec<&(Vec<usize>, char)> = leaves.iter().filter(|l| l.1 == 's').collect();
+    if strs.is_empty() {
+        return None;
+    }
+    let path = rng.pick(&strs).0.clone();
+    let n = 300 + rng.below(400) as usize;
+    let filler: Vec<char> = "abcdefghijklmnopqrstuvwxyzABCDEFGHIJKLMNOPQRSTUVWXYZ0123456789 _-".chars().collect();
+    let mut base: Vec<char> = (0..n).map(|_| *rng.pick(&filler)).collect();
+    let mid = 120 + rng.below((n - 240) as u64) as usize;
+    let (kind, x, y): (&'static str, [char; 2], [char; 2]) = match rng.below(5) {
+        0 => ("long-one-char", ['m', 'q'], ['n', 'q']),
+        1 => ("long-poly31", ['A', 'a'], ['B', 'B']),      // 31*65+97 = 31*66+66
+        2 => ("long-sum", ['b', 'c'], ['c', 'b']),         // transposition: same multiset, same sum / xor
+        3 => ("long-poly33", ['A', 'b'], ['B', 'A']),      // 33*65+98 = 33*66+65 (djb2)
+        _ => ("long-xor", ['a', 'b'], ['c', '`']),          // 0x61^0x62 = 0x63^0x60
+    };
+    base[mid] = x[0];
+    base[mid + 1] = x[1];
+    let sa: String = base.iter().collect();
+    base[mid] = y[0];
+    base[mid + 1] = y[1];
+    let sb: String = base.iter().collect();
+    let mut va = a.to_vec();
+    let mut vb = a.to_vec();
+    *at_mut(&mut va[path[0]], &path[1..]) = V::Str(sa);
+    *at_mut(&mut vb[path[0]], &path[1..]) = V::Str(sb);
+    Some((va, vb, kind))
+}
+
 fn make_pair(tys: &[Ty], a: &[V], rng: &mut Rng) -> Option<(Vec<V>, &'static str)> {
     let cands: Vec<usize> = (0..tys.len()).filter(|i| can_differ(&tys[*i])).collect();
     if cands.is_empty() {
@@ -1463,9 +1501,20 @@ fn main() {
             }
         }
         if !tys.is_empty() {
-            for _ in 0..pairs {
-                let a: Vec<V> = tys.iter().map(|t| gen(t, &mut r, 0)).collect();
-                let Some((b, kind)) = make_pair(&tys, &a, &mut r) else { continue };
+            for pi in 0..pairs {
+                let mut a: Vec<V> = tys.iter().map(|t| gen(t, &mut r, 0)).collect();
+                // every sixth pair: LONG TWINS — both tuples carry a long string (300..700 bytes) in the same leaf, equal in
+                // length, prefix and suffix, differing in one or two adjacent characters in the middle; what a key path that
+                // abbreviates over-long renderings (prefix + length + weak digest) would confuse
+                let twins = if pi % 6 == 5 { long_twins(&a, &mut r) } else { None };
+                let made = match twins {
+                    Some((a2, b2, kind)) => {
+                        a = a2;
+                        Some((b2, kind))
+                    }
+                    None => make_pair(&tys, &a, &mut r),
+                };
+                let Some((b, kind)) = made else { continue };
                 assert!(a != b);
                 *pair_kinds.entry(kind).or_insert(0) += 1;
                 for vals in [&a, &b] {
